@@ -54,7 +54,8 @@ def one_dataset(obs, rng, conv, spec, workdir=None):
     kw = {}
     if conv in ('cf1d', 'cf2d') and rng.random() < 0.3:
         kw = {}
-    model = make_dressed(rng, conv, dress=dict(per_kind=(1, 3), nongrid=1, time=True if rng.random() < 0.8 else None), **kw)
+    model = make_dressed(rng, conv, dress=dict(per_kind=(1, 3), nongrid=1, time=True if rng.random() < 0.8 else None,
+                                               index_dim=rng.random() < 0.4, max_extra=4), **kw)
     ds, source = model.materialise(rng, workdir)
     obs.cls('source:' + source)
     spec['source'] = source
